@@ -181,7 +181,8 @@ func c19GenDoc(r *xrand.Rand, idx int, tier string) *fw.Case {
 	for i := 0; i < nt; i++ {
 		d := tagDecl{name: fmt.Sprintf("@T%d", i)}
 		if r.Bool() {
-			d.ann = fmt.Sprintf("Title of %d", i)
+			d.ann = []string{"Title of %d", "Title   of  %d", "Title\tof %d ", "  Title of %d"}[r.Intn(4)]
+			d.ann = fmt.Sprintf(d.ann, i)
 		}
 		decls = append(decls, d)
 	}
@@ -189,7 +190,11 @@ func c19GenDoc(r *xrand.Rand, idx int, tier string) *fw.Case {
 		for _, d := range decls {
 			sb.WriteString("TAG " + d.name)
 			if d.ann != "" {
-				sb.WriteString(" // " + d.ann)
+				if r.Chance(1, 3) {
+					sb.WriteString(" /* " + d.ann + " */")
+				} else {
+					sb.WriteString(" // " + d.ann)
+				}
 			}
 			sb.WriteString("\n")
 		}
@@ -253,6 +258,9 @@ func c19GenDoc(r *xrand.Rand, idx int, tier string) *fw.Case {
 				}
 				if r.Chance(2, 5) {
 					me.own = pick()
+					if r.Chance(1, 3) {
+						sb.WriteString("    Description\n      about it\n")
+					}
 					sb.WriteString("    Tags " + strings.Join(me.own, " ") + "\n")
 				}
 				sb.WriteString("    200 any\n")
@@ -274,6 +282,9 @@ func c19GenDoc(r *xrand.Rand, idx int, tier string) *fw.Case {
 				sb.WriteString("  Method " + me.verb + "\n")
 				if r.Chance(2, 5) {
 					me.own = pick()
+					if r.Chance(1, 3) {
+						sb.WriteString("    Description\n      about it\n")
+					}
 					sb.WriteString("    Tags " + strings.Join(me.own, " ") + "\n")
 				}
 				sb.WriteString("    Params\n    {}\n")
@@ -284,6 +295,9 @@ func c19GenDoc(r *xrand.Rand, idx int, tier string) *fw.Case {
 			sb.WriteString(me.verb + " " + path + "\n")
 			if r.Chance(2, 5) {
 				me.own = pick()
+				if r.Chance(1, 3) {
+					sb.WriteString("  Description\n    about it\n")
+				}
 				sb.WriteString("  Tags " + strings.Join(me.own, " ") + "\n")
 			}
 			sb.WriteString("  200 any\n")
@@ -302,7 +316,14 @@ func c19GenDoc(r *xrand.Rand, idx int, tier string) *fw.Case {
 	if !tagsFirst {
 		writeTags()
 	}
-	c := oneDocCase([]byte(sb.String()), "", "tags document")
+	text := sb.String()
+	switch r.Intn(4) {
+	case 0:
+		text = strings.ReplaceAll(text, "\n", "\r\n")
+	case 1:
+		text = strings.ReplaceAll(text, "\n", "\r")
+	}
+	c := oneDocCase([]byte(text), "", "tags document")
 	c.Meta = map[string]string{}
 	var enc []string
 	for _, m := range methods {
@@ -311,7 +332,7 @@ func c19GenDoc(r *xrand.Rand, idx int, tier string) *fw.Case {
 	c.Meta["methods"] = strings.Join(enc, "\n")
 	var dd []string
 	for _, d := range decls {
-		dd = append(dd, d.name+"|"+d.ann)
+		dd = append(dd, d.name+"|"+strings.Join(strings.Fields(d.ann), " "))
 	}
 	c.Meta["decls"] = strings.Join(dd, "\n")
 	c.Meta["undeclared"] = fmt.Sprint(undeclared)
